@@ -274,36 +274,47 @@ def rows_from_str(s: str):
 
 
 class Case:
-    __slots__ = ("w", "rows", "choices", "align", "rev", "eofb", "route", "tag")
+    __slots__ = ("w", "rows", "choices", "align", "rev", "eofb", "route", "tag", "omit")
 
-    def __init__(self, w, rows, choices, align, rev, eofb, route="func", tag="rand"):
+    def __init__(self, w, rows, choices, align, rev, eofb, route="func", tag="rand", omit=False):
         self.w, self.rows, self.choices = w, rows, list(choices)
         self.align, self.rev, self.eofb, self.route, self.tag = bool(align), bool(rev), bool(eofb), route, tag
+        # omit: leave out of the parameter dictionary every key whose value is the ISO 32000 default
+        # (Columns 1728, EncodedByteAlign false, BlackIs1 false)
+        self.omit = bool(omit)
+
+    def omitted(self) -> List[str]:
+        if not self.omit:
+            return []
+        return ([k for k, v, d in (("Columns", self.w, 1728), ("EncodedByteAlign", self.align, False),
+                                   ("BlackIs1", self.rev, False)) if v == d])
 
     def to_json(self) -> Dict[str, Any]:
         return {"w": self.w, "rows": rows_str(self.rows), "choices": ",".join(self.choices), "align": self.align,
-                "blackis1": self.rev, "eofb": self.eofb, "route": self.route}
+                "blackis1": self.rev, "eofb": self.eofb, "route": self.route, "omit_defaults": self.omit}
 
     @staticmethod
     def from_json(d) -> "Case":
         rows = rows_from_str(d["rows"])
         ch = d.get("choices", "")
         return Case(d["w"], rows, ch.split(",") if ch else [], d.get("align", False), d.get("blackis1", False),
-                    d.get("eofb", True), d.get("route", "func"), "replay")
+                    d.get("eofb", True), d.get("route", "func"), "replay", d.get("omit_defaults", False))
 
     def key(self):
-        return (self.w, rows_str(self.rows), tuple(self.choices), self.align, self.rev, self.eofb, self.route)
+        return (self.w, rows_str(self.rows), tuple(self.choices), self.align, self.rev, self.eofb, self.route,
+                self.omit)
 
     def line(self) -> str:
         ch = ",".join(c if c else "-" for c in self.choices) if self.choices else "-"
-        return "rt %d %d %d %d %s %s" % (self.w, self.align, self.eofb, self.rev, rows_str(self.rows), ch)
+        return "rt %d %d %d %d %d %s %s" % (self.w, self.align, self.eofb, self.rev, self.omit,
+                                            rows_str(self.rows), ch)
 
 
 def eval_case(c: Case) -> Tuple[bytes, str, bytes, str]:
     """-> (encoded, modes used, expected output, implementation result string)"""
     enc, used = encode_image(c.rows, c.w, c.choices, c.align, c.eofb)
     exp = pack(c.rows, c.w, c.rev)
-    got = impl_decode(enc, -1, c.w, c.align, c.rev, c.route)
+    got = impl_decode(enc, -1, c.w, c.align, c.rev, c.route, c.omitted())
     return enc, used, exp, got
 
 
@@ -328,11 +339,16 @@ def shrink(c: Case, max_tests: int = 300) -> Case:
             pass
         return False
 
-    def mk(w=None, rows=None, choices=None, align=None, rev=None, eofb=None, route=None):
+    def mk(w=None, rows=None, choices=None, align=None, rev=None, eofb=None, route=None, omit=None):
         return Case(best.w if w is None else w, best.rows if rows is None else rows,
                     best.choices if choices is None else choices, best.align if align is None else align,
                     best.rev if rev is None else rev, best.eofb if eofb is None else eofb,
-                    best.route if route is None else route, best.tag)
+                    best.route if route is None else route, best.tag, best.omit if omit is None else omit)
+
+    if best.omit:
+        attempt(mk(omit=False))
+    # blank image of the same width first (settles failures that do not depend on the content)
+    attempt(mk(rows=[[1] * best.w], choices=[]))
 
     if best.route != "func":
         attempt(mk(route="func"))
@@ -389,7 +405,7 @@ def tags_of(c: Case, got: str) -> Dict[str, Any]:
     return {"width": c.w, "height": len(c.rows), "align": c.align, "blackis1": c.rev, "eofb": c.eofb,
             "route": c.route, "modes": used, "longest_run": longest, "exception": got[4:] if got.startswith("EXC:") else "",
             "uses_pass": "p" in used, "uses_vertical": "v" in used, "uses_horizontal": "h" in used,
-            "makeup": longest >= 64}
+            "makeup": longest >= 64, "omitted_keys": c.omitted(), "columns_omitted": "Columns" in c.omitted()}
 
 
 class Batch:
@@ -410,6 +426,8 @@ class Batch:
             ctx.branch("mode:" + m)
         ctx.branch("route:" + c.route)
         ctx.branch("align:%d rev:%d eofb:%d" % (c.align, c.rev, c.eofb))
+        for k in c.omitted():
+            ctx.branch("omitted:" + k)
         for r in c.rows:
             for _, g in itertools.groupby(r):
                 n = len(list(g))
@@ -439,9 +457,10 @@ class Batch:
         got = impl_decode(data, K, cols, align, rev, route)
         ctx.case(("dec", data, K, cols, align, rev), True, branch="gen:" + tag)
         ctx.branch("dec:" + (got[:3] if got.startswith("ok") else got))
-        self.lines.append("dec %s %s %d %d %s" % ("n" if K is None else K, "n" if cols is None else cols,
-                                                  bool(align), bool(rev), C.hx(data)))
-        self.expect.append(("dec", {"K": K, "Columns": cols, "align": bool(align), "blackis1": bool(rev),
+        self.lines.append("dec %s %s %s %s %s" % ("n" if K is None else K, "n" if cols is None else cols,
+                                                  "n" if align is None else int(bool(align)),
+                                                  "n" if rev is None else int(bool(rev)), C.hx(data)))
+        self.expect.append(("dec", {"K": K, "Columns": cols, "align": align, "blackis1": rev,
                                     "data": data.hex()}, got))
 
     def add_raw(self, line: str, inp: Any, expected: str) -> None:
@@ -541,7 +560,8 @@ def gen_case(rng, i: int) -> Case:
         rows.append(gen_row(rng, w, rows[-1] if rows else None))
     route = ROUTES[(i // 3) % 3] if i % 41 else "pdf"
     return Case(w, rows, gen_choices(rng, rows, w), rng.random() < 0.5, rng.random() < 0.5, rng.random() < 0.7,
-                route, "rand-big" if w >= 2000 else ("rand-mid" if w >= 63 else "rand-small"))
+                route, "rand-big" if w >= 2000 else ("rand-mid" if w >= 63 else "rand-small"),
+                omit=rng.random() < 0.3)
 
 
 def run_tables(ctx: C.Ctx, b: Batch) -> None:
@@ -621,6 +641,17 @@ def run_structured(ctx: C.Ctx, b: Batch) -> None:
                                   ROUTES[k % 3], "run-threshold"))
 
 
+def run_defaults(ctx: C.Ctx, b: Batch) -> None:
+    """Fax-width images whose parameter dictionary relies on the ISO 32000 defaults (Columns 1728, ...)."""
+    rng = ctx.rng
+    for i in range(ctx.n(6, 60)):
+        rows: List[List[int]] = []
+        for _ in range(rng.choice([1, 2, 3])):
+            rows.append(gen_row(rng, 1728, rows[-1] if rows else None))
+        b.add_rt(Case(1728, rows, gen_choices(rng, rows, 1728), i % 2, (i // 2) % 2, i % 3 != 0,
+                      ROUTES[i % 4], "defaults-1728", omit=True))
+
+
 def run_random(ctx: C.Ctx, b: Batch) -> None:
     rng = ctx.rng
     for i in range(ctx.n(700, 40000)):
@@ -663,6 +694,8 @@ def run_damaged(ctx: C.Ctx, b: Batch) -> None:
     for K in (-1, 0, 1, 4, -2, None):
         b.add_dec(some, K, 5, False, False, tag="param-K")
     b.add_dec(some, -1, None, False, False, tag="param-Columns-missing")
+    for al, rv in ((None, None), (None, True), (True, None)):
+        b.add_dec(some, -1, 5, al, rv, tag="param-flags-missing")
     b.add_dec(b"", -1, 5, False, False, tag="empty")
 
 
@@ -698,6 +731,7 @@ def run(ctx: C.Ctx) -> None:
     run_corpus(ctx, b)
     run_tables(ctx, b)
     run_structured(ctx, b)
+    run_defaults(ctx, b)
     run_random(ctx, b)
     run_damaged(ctx, b)
     run_exhaustive(ctx, b)
